@@ -6,7 +6,7 @@
     it evaluates the specification ([spec_at], [quiescent_clean_b], probe = listener) on the
     observations. *)
 From Coq Require Import ZArith.
-From CM Require Import Lib.Str Lib.Wire Gen.Consts Safe.Model Challenge.Assoc Challenge.Model Challenge.Check Solvers.Model.
+From CM Require Import Lib.Str Lib.Wire Gen.Consts Safe.Model Challenge.Assoc Challenge.Model Challenge.Check Solvers.Model Solvers.E2E Solvers.Config.
 Open Scope N_scope.
 
 Record obs := Obs {
@@ -19,13 +19,20 @@ Record obs := Obs {
   ob_dmem : list rec
 }.
 Record stepc := StepC { st_clean : bool; st_order : nat; st_faults : faults; st_obs : obs }.
+(** end-to-end observations (orders driven through the real ACMEIssuer against the mock CA):
+    what the CA's real validation request got at this point of the history, and how the order ended *)
+Inductive e2e_item :=
+| EValidation (i : nat) (other observed : bool)
+| EOutcome (i : nat) (validated ca_rejects cancelled observed : bool).
 Record case := Case {
   k_lt : list (N * N); k_st : list N;
   k_honour : bool;
   k_orders : list order;
   k_occupied : list str;
   k_final_only : bool;
-  k_steps : list stepc
+  k_steps : list stepc;
+  k_e2e : list e2e_item;
+  k_cfgs : list (icfg * list sdesc)   (* issuer configurations and the solver sets newACMEClient built for them *)
 }.
 
 Definition get_skind : dec skind :=
@@ -46,10 +53,23 @@ Definition get_obs : dec obs :=
   ret (Obs e sv pr m s r d).
 Definition get_step : dec stepc :=
   t <- get_bool ;; i <- get_nat ;; f <- get_faults ;; o <- get_obs ;; ret (StepC t i f o).
+Definition get_item : dec e2e_item :=
+  t <- get_n ;; i <- get_nat ;;
+  match t with
+  | 0 => o <- get_bool ;; b <- get_bool ;; ret (EValidation i o b)
+  | _ => v <- get_bool ;; r <- get_bool ;; c <- get_bool ;; b <- get_bool ;; ret (EOutcome i v r c b)
+  end.
+Definition get_sdesc : dec sdesc :=
+  t <- get_ctype ;; d <- get_bool ;; p <- get_str ;; a <- get_str ;; ret (SDesc t d p a).
+Definition get_cfg : dec (icfg * list sdesc) :=
+  dn <- get_bool ;; dh <- get_bool ;; da <- get_bool ;; h <- get_str ;; ah <- get_z ;; aa <- get_z ;;
+  gh <- get_z ;; gs <- get_z ;; ik <- get_str ;; obs <- get_list get_sdesc ;;
+  ret (ICfg dn dh da h ah aa gh gs ik, obs).
 Definition get_case : dec case :=
   lt <- get_list (get_pair get_n get_n) ;; st <- get_list get_n ;; h <- get_bool ;;
   os <- get_list get_order ;; oc <- get_list get_str ;; fo <- get_bool ;; ss <- get_list get_step ;;
-  ret (Case lt st h os oc fo ss).
+  es <- get_list get_item ;; cs <- get_list get_cfg ;;
+  ret (Case lt st h os oc fo ss es cs).
 
 Section Run.
   Variable c : case.
@@ -106,7 +126,39 @@ Section Run.
         let '(a', sp', j) := replay r s' ops' (S i) in
         (a && a', sp && sp', if a && sp then j else i)
     end.
-  Definition result : bool * bool * nat := replay (k_steps c) sinit [] O.
+
+  (** ** end-to-end items, judged at the end of the history *)
+  Definition all_ops : list sop := map op_of (k_steps c).
+  Definition final_state : sstate := srun sf (k_honour c) all_ops.
+  Definition feq0 : N -> N -> bool := tbl_feq [].
+  Definition order_at (i : nat) : order := nth i (k_orders c) dummy_order.
+  (** did the (first) Present of order [i] return an error in the model? *)
+  Fixpoint present_failed (i : nat) (steps : list stepc) (s : sstate) : bool :=
+    match steps with
+    | [] => true
+    | st :: r =>
+        let '(s', err) := sstep sf (k_honour c) s (op_of st) in
+        if negb (st_clean st) && Nat.eqb (st_order st) i then err else present_failed i r s'
+    end.
+  Definition item_agrees (it : e2e_item) : bool :=
+    match it with
+    | EValidation i other obs => Bool.eqb (validates sf feq0 other final_state (order_at i)) obs
+    | EOutcome _ _ _ _ _ => true
+    end.
+  Definition item_spec (it : e2e_item) : bool :=
+    match it with
+    | EValidation i other obs => validation_spec all_ops (order_at i) other obs
+    | EOutcome i validated ca_rejects cancelled obs =>
+        (* against a conforming server the order succeeds exactly when nothing was made to fail *)
+        Bool.eqb obs (negb (present_failed i (k_steps c) sinit) && validated && negb ca_rejects && negb cancelled)
+    end.
+
+  Definition result : bool * bool * nat :=
+    let '(a, sp, j) := replay (k_steps c) sinit [] O in
+    (a && forallb item_agrees (k_e2e c) &&
+     forallb (fun x : icfg * list sdesc => same_set sdesc_eqb (solver_set lower is_space (fst x)) (snd x)) (k_cfgs c),
+     sp && forallb item_spec (k_e2e c) &&
+     forallb (fun x : icfg * list sdesc => cfg_spec lower is_space (fst x) (snd x)) (k_cfgs c), j).
 End Run.
 
 Definition check_line (l : list Z) : Z :=
